@@ -545,6 +545,10 @@ func (s *Service) truncateGlobally(ctx context.Context, sortedInfos []*TruncateI
 			}
 
 			cks, _ := j.Chunks().Chunks(ctx)
+			if tp.DryRun && ti.ChunksDeleted <= len(cks) {
+				// in a dry run the chunks counted by the first phase are still in the list
+				cks = cks[ti.ChunksDeleted:]
+			}
 			// truncating the journal to remove all the chunks first
 			s.truncate(ctx, j, &TruncateParams{DryRun: tp.DryRun, MinSrcSize: 0, MaxSrcSize: 1})
 			deleted := tp.DryRun || s.deleteJournal(ctx, j)
